@@ -78,6 +78,8 @@ pzgstrf_snode_bmod(
 	luptr = xlusup[fsupc];
 	nsupr = xlsub_end[fsupc] - xlsub[fsupc];
 	nsupc = jcol - fsupc;	/* Excluding jcol */
+	if ( nsupc > nsupr ) nsupc = nsupr; /* fewer rows than columns (singular) */
+	if ( nsupc == 0 ) return 0; /* no row at all: nothing to update */
 	ufirst = xlusup[jcol];	/* Points to the beginning of column
 				   jcol in supernode L\U(jsupno). */
 	nrow = nsupr - nsupc;
